@@ -25,8 +25,9 @@ PROP = "C19"
 B = 1100          # samples per abstract block
 
 
-def build(maps, g, nchan=0):
-    """signals from silence maps: active blocks are noise, silent blocks exactly zero"""
+def build(maps, g, nchan=0, pan=False):
+    """signals from silence maps: active blocks are noise, silent blocks exactly zero; pan: the first source is hard-panned
+    (its second channel exactly zero everywhere) - a panned source is NOT silent, the silence map is unchanged"""
     out = []
     for m in maps:
         x = np.concatenate([g.randn(B) if a else np.zeros(B) for a in m])
@@ -34,6 +35,8 @@ def build(maps, g, nchan=0):
     x = np.array(out)
     if nchan:
         x = np.stack([x * (1.0 + 0.3 * c) for c in range(nchan)], axis=2)
+        if pan and nchan > 1:
+            x[0, :, 1] = 0.0
     return x
 
 
@@ -67,7 +70,7 @@ def run(tier, seed):
     for r in pick:
         for images in (False, True):
             nchan = rng.choice([1, 2]) if images else 0
-            refs, ests = build(r["refs"], g, nchan), build(r["ests"], g, nchan)
+            refs, ests = build(r["refs"], g, nchan), build(r["ests"], g, nchan, pan=(nchan == 2 and rng.random() < 0.6))
             fw = sp.bss_eval_images_framewise if images else sp.bss_eval_sources_framewise
             nf = sp.bss_eval_images if images else sp.bss_eval_sources
             win, hop = r["window"] * B, r["hop"] * B
